@@ -101,6 +101,7 @@ pub const W_DUP: [usize; 10] = [36, 38, 40, 50, 88, 92, 92, 95, 98, 99];
 pub fn graph_scenario(idx: usize, rng: &mut Rng, o: &GraphOpts, family: &str) -> World {
     let mut w = World::new(o.enc, o.obs, idx, family);
     w.log_patches = o.log_patches;
+    w.auto_shadow = family == "autofront";
     w.desc_actors = family == "ids" || family == "idshi" || family == "longgraph";
     w.hi_actors = family == "idshi";
     let mut next_actor: u8 = 1;
